@@ -378,7 +378,7 @@ var opMuts = []opMut{
 			b.Signed["deltaHash"] = opb.ModelMH(b.Code, b.Delta)
 		}
 	}},
-	{"commitment/next-update-is-current-key", "u", func(r *rand.Rand, b *built, cfg M) {
+	{"commitment/next-update-is-current-key", "ur", func(r *rand.Rand, b *built, cfg M) {
 		deltaM(b)["updateCommitment"] = b.Key.Commitment(b.Code)
 		b.Signed["deltaHash"] = opb.ModelMH(b.Code, b.Delta)
 	}},
@@ -388,7 +388,7 @@ var opMuts = []opMut{
 		cfg["maxOperationHashLength"] = 150
 		b.Signed["recoveryCommitment"] = b.Key.Commitment(37 - b.Code)
 	}},
-	{"commitment/next-update-is-current-key-other-algorithm", "u", func(r *rand.Rand, b *built, cfg M) {
+	{"commitment/next-update-is-current-key-other-algorithm", "ur", func(r *rand.Rand, b *built, cfg M) {
 		cfg["multihashAlgorithms"] = []int{18, 19}
 		cfg["maxOperationHashLength"] = 150
 		deltaM(b)["updateCommitment"] = b.Key.Commitment(37 - b.Code)
